@@ -3,6 +3,7 @@ package main
 import (
 	"fmt"
 	"go/token"
+	"go/types"
 	"sort"
 	"strings"
 
@@ -91,7 +92,57 @@ func checkC13(r *Run) {
 	r.Floor("own/summaries", nSetters, 1, "entry setter (link)")
 
 	c13Stop(r, ts)
+	placeholderHandout(r, fns, "own/placeholder")
 	r.Exhaustive = true
+}
+
+// placeholderHandout: a function that reserves a fid with refs.LoadOrStore(fid, new) hands its new *SFid out (any
+// non-nil *SFid result, whatever the error result says) only on the not-loaded edge. A caller that receives the
+// object for a fid it does not own "rolls back" by deleting the fid — i.e. unbinds somebody else's live entry
+// without releasing it.
+func placeholderHandout(r *Run, fns []*ssa.Function, rule string) {
+	n := 0
+	for _, fn := range fns {
+		los := findCalls(fn, "(*sync.Map).LoadOrStore")
+		if len(los) == 0 {
+			continue
+		}
+		ri := -1
+		res := fn.Signature.Results()
+		for i := 0; i < res.Len(); i++ {
+			if pt, ok := res.At(i).Type().(*types.Pointer); ok && isP9P(pt.Elem(), "SFid") {
+				ri = i
+			}
+		}
+		if ri < 0 {
+			continue
+		}
+		for _, ret := range returnsOf(fn) {
+			if len(ret.Results) <= ri {
+				continue
+			}
+			n++
+			for _, alt := range phiAlternatives(ret.Results[ri], 3) {
+				if isNilConst(alt) {
+					continue
+				}
+				notLoaded := false
+				for _, lo := range los {
+					loaded := resultN(lo, 1)
+					for _, cd := range condsAtInstr(ret) {
+						nc := normCond(cd)
+						if nc.V == loaded && !nc.Truth {
+							notLoaded = true
+						}
+					}
+				}
+				r.Check(notLoaded, rule, fnName(fn)+": a non-nil *SFid is returned only on the not-loaded edge of LoadOrStore", ret.Pos(),
+					"the reservation helper hands out its object although the fid may already be bound: the caller's rollback (refs.Delete) then unbinds the existing fid without releasing its entry")
+				break
+			}
+		}
+	}
+	r.Floor(rule, n, 2, "returns of the reservation helper")
 }
 
 // O4: Stop visits every table entry and releases it.
